@@ -361,12 +361,29 @@ func Main(newES func(bind func(stub any, directives any, complexity any)) graphq
 	case "faults":
 		// every operation first runs fault-free; then once per user-code invocation it made, with that
 		// single invocation forced to fail (error / panic alternating; directives: error / block / panic)
-		g := NewGen(es.Schema(), *seed, "clean")
+		// -profile c13clean: the same over documents with @defer (faults inside deferred groups); every
+		// result then carries its twin with every @defer removed and the same fault
+		fp := "clean"
+		if *profile == "c13clean" {
+			fp = "c13clean"
+		}
+		twin := func(c Case, r *Result) {
+			if fp != "c13clean" {
+				return
+			}
+			pc := c
+			pc.Query = StripDefer(c.Query)
+			pr := RunCase(es, pc)
+			pr.Doc = nil
+			r.Plain = &pr
+		}
+		g := NewGen(es.Schema(), *seed, fp)
 		for i := 0; i < *n; i++ {
 			c := g.Case(i)
 			base := RunCase(es, c)
 			pj, _ := json.Marshal(c.Plan)
 			base.Plan = pj
+			twin(c, &base)
 			enc.Encode(base)
 			for k, inv := range base.Log {
 				fc := c
@@ -383,6 +400,7 @@ func Main(newES func(bind func(stub any, directives any, complexity any)) graphq
 				r.Plan = pj
 				r.Fault = key
 				r.FaultKind = kind
+				twin(fc, &r)
 				enc.Encode(r)
 			}
 		}
